@@ -64,9 +64,13 @@ class Floor(object):
         return self.d.keys()
 
 
+EMU_PROPS = ('C01', 'C02', 'C06', 'C07', 'C09')
+
+
 def obligations(pid, tier, only=None, cfgs=None):
     obls = {}
-    for c in C.CONFIGS + (C.EMULATED if (cfgs and any(x.startswith('emu') for x in cfgs)) else []):
+    # the emulated architectures are analysed for the properties whose operations do not involve batch_bool values
+    for c in C.CONFIGS + (C.EMULATED if (pid in EMU_PROPS or (cfgs and any(x.startswith('emu') for x in cfgs))) else []):
         if cfgs and c.name not in cfgs:
             continue
         if pid == 'C17' and c.name not in ('sse2', 'avx2', 'avx512f'):
